@@ -628,7 +628,9 @@ pub fn survives(f: impl FnOnce()) -> bool {
     unsafe {
         let pid = libc::fork();
         if pid < 0 {
-            return true;
+            // no pre-screen possible (fork refused, e.g. under memory pressure in sanitizer builds): never run the
+            // reference unprotected - a zlib-ng crash in this process would look like a zlib-rs finding
+            return false;
         }
         if pid == 0 {
             // child: default signal dispositions (under libFuzzer / AddressSanitizer the inherited handlers would
